@@ -175,6 +175,8 @@ def check_install(ctx):
 
 
 def check(ctx):
+    from . import c01 as _c01
+    _c01.check_cache_keys(ctx)     # two tables never share block-cache keys
     check_readers(ctx)
     check_writer(ctx)
     check_install(ctx)
